@@ -2,6 +2,7 @@ package rules
 
 import (
 	"fmt"
+	"go/constant"
 	"go/token"
 	"go/types"
 	"strings"
@@ -343,7 +344,52 @@ func relOnTrue(cond ssa.Value, L, R VP, bf []BoolFn) (Rel, bool) {
 			}
 		}
 	}
+	// a boolean value used directly as the condition: "L is true"
+	if R.Desc == vpTrue.Desc && L.match(cond) {
+		return EQ, true
+	}
 	return RelNone, false
+}
+
+// vpTrue is the right-hand side of "the boolean L is true".
+var vpTrue = VP{"true", func(v ssa.Value) bool {
+	c, ok := v.(*ssa.Const)
+	return ok && c.Value != nil && c.Value.Kind() == constant.Bool && constant.BoolVal(c.Value)
+}}
+
+// isTrue: the guard "boolean value matching p is true".
+func isTrue(p VP) Cmp { return Cmp{L: p, R: vpTrue, Want: EQ} }
+
+// isFalse: the guard "boolean value matching p is false".
+func isFalse(p VP) Cmp { return Cmp{L: p, R: vpTrue, Want: NE} }
+
+// vpStr matches the string constant s.
+func vpStr(s string) VP {
+	return VP{fmt.Sprintf("%q", s), func(v ssa.Value) bool {
+		c, ok := prog.Strip(v).(*ssa.Const)
+		return ok && c.Value != nil && c.Value.Kind() == constant.String && constant.StringVal(c.Value) == s
+	}}
+}
+
+// constStr resolves a package-level string constant ("rel/pkg.Name") to its value.
+func (x *Ctx) constStr(spec string) (string, bool) {
+	o, ok := x.P.Lookup(spec).(*types.Const)
+	if !ok || o.Val().Kind() != constant.String {
+		x.C.Unresolved(x.id(), spec)
+		return "", false
+	}
+	return constant.StringVal(o.Val()), true
+}
+
+// constInt resolves a package-level integer constant.
+func (x *Ctx) constInt(spec string) (int64, bool) {
+	o, ok := x.P.Lookup(spec).(*types.Const)
+	if !ok || o.Val().Kind() != constant.Int {
+		x.C.Unresolved(x.id(), spec)
+		return 0, false
+	}
+	i, _ := constant.Int64Val(o.Val())
+	return i, true
 }
 
 func twoOperands(call *ssa.Call) (a, b ssa.Value, ok bool) {
